@@ -309,6 +309,7 @@ def parseRe (s : Bytes) : Option Re :=
 def Re.runeSensitive : Re → Bool
   | .eps => false
   | .chr p => p.neg
+  | .seq (.chr p) (.star (.chr q) g) => if q.neg then false else p.neg   -- `x+` with a complemented `x`
   | .seq a b => a.runeSensitive || b.runeSensitive
   | .alt a b => a.runeSensitive || b.runeSensitive
   | .star (.chr _) _ => false
